@@ -9,7 +9,7 @@
    sampled matrix F(s,i) = F[get_1d_index(s,i,n)]; [ts_rates_Q0], [purity_s_Q] are the executable rational instances. *)
 From Coq Require Import Reals QArith Lra List.
 From SpdVerif Require Import Model.FinSum Model.Hom Model.Hom2 Proofs.FinSum_lemmas Proofs.Cx_lemmas Proofs.CMat Proofs.C10_sums
-  Proofs.C10_svd Proofs.C10_expand Proofs.C10_identical Proofs.C10_setup Proofs.C10_exec Proofs.C10_sharp Gen.HomSrc Proofs.C10_src.
+  Proofs.C10_svd Proofs.C10_expand Proofs.C10_identical Proofs.C10_setup Proofs.C10_exec Proofs.C10_sharp Proofs.C10_scale Gen.HomSrc Proofs.C10_src.
 Local Open Scope R_scope.
 
 (* identical sources (six main grids = one array F), unit phases (zero delay):
@@ -45,6 +45,27 @@ Theorem C10_setup_visibilities : forall J ls li n sv,
   fst (fst (setup_ts_visibilities_identical J ls li n)) = purity_sv n sv /\
   snd (fst (setup_ts_visibilities_identical J ls li n)) = purity_sv n sv.
 Proof. exact setup_identical_visibilities_sv. Qed.
+
+(* the free function hom_two_source_visibilities(&a, &b, ..) with two structurally equal sources (same amplitude function, same
+   waist positions and transit times), whichever way the test `spdc1 == spdc2` comes out: zero ss / ii delays and
+   V_ss = V_ii = purity, as for a setup against itself *)
+Theorem C10_free_function_identical : forall same J a ls li n,
+  jsi_norm ROps (n * n) (tabulate J (axes_grid ls li n)) <> 0 ->
+  fst (fst (setup_ts_visibilities same J J a a ls li ls li n)) = (0, purity_s ROps n (Fmat n (tabulate J (axes_grid ls li n)))) /\
+  snd (fst (setup_ts_visibilities same J J a a ls li ls li n)) = (0, purity_i ROps n (Fmat n (tabulate J (axes_grid ls li n)))).
+Proof. exact free_function_identical. Qed.
+
+Theorem C10_time_delays_equal_sources : forall a,
+  ts_time_delays a a = (0, 0, idl_time a - sig_time a + (idl_wp a - sig_wp a) / light_c).
+Proof. exact ts_time_delays_same. Qed.
+
+(* brightness invariance: a second source whose amplitude is c times the first's (different pump power, d_eff, global phase)
+   gives the same three rates as the first source against itself, at every delay and on any two ranges *)
+Theorem C10_brightness_invariant : forall J c ls1 li1 ls2 li2 n dt,
+  c <> (0, 0) ->
+  jsi_norm ROps (n * n) (tabulate J (axes_grid ls1 li1 n)) * jsi_norm ROps (n * n) (tabulate J (axes_grid ls2 li2 n)) <> 0 ->
+  setup_ts_rates J (fun a b => cmul ROps c (J a b)) ls1 li1 ls2 li2 n dt = setup_ts_rates J J ls1 li1 ls2 li2 n dt.
+Proof. exact setup_brightness_invariant. Qed.
 
 (* rates in [0,1] at every delay, arbitrary eight grids: each rate needs the product of the norms of its two cross grids
    not to exceed norm1 * norm2 *)
@@ -119,6 +140,11 @@ Theorem C10_source_wrappers : forall J ls li n dt,
   src_ts_visibilities_identical J ls li n = setup_ts_visibilities_identical J ls li n.
 Proof. exact src_ts_wrappers. Qed.
 
+Theorem C10_source_free_function : forall same J1 J2 a b ls1 li1 ls2 li2 n,
+  src_ts_time_delays a b = ts_time_delays a b /\
+  src_ts_visibilities same J1 J2 a b ls1 li1 ls2 li2 n = setup_ts_visibilities same J1 J2 a b ls1 li1 ls2 li2 n.
+Proof. exact src_ts_free_function. Qed.
+
 (* ---- non-vacuity *)
 Example C10_nonvacuous_norm : jsi_norm ROps (2 * 2) (fun _ => (1, 0)) <> 0.
 Proof. unfold jsi_norm, cnorm2. cbn. lra. Qed.
@@ -144,11 +170,15 @@ Print Assumptions C10_ss_eq_ii.
 Print Assumptions C10_singular_values.
 Print Assumptions C10_power_sums.
 Print Assumptions C10_setup_visibilities.
+Print Assumptions C10_free_function_identical.
+Print Assumptions C10_time_delays_equal_sources.
+Print Assumptions C10_brightness_invariant.
 Print Assumptions C10_range_general.
 Print Assumptions C10_si_partial.
 Print Assumptions C10_range_partial.
 Print Assumptions C10_range_same_axes.
 Print Assumptions C10_source_is_model.
 Print Assumptions C10_source_wrappers.
+Print Assumptions C10_source_free_function.
 Print Assumptions C10_exec_twin.
 Print Assumptions C10_exec_twin_purity.
